@@ -662,7 +662,7 @@ func moveSplits(fromOr, toOr *OutRec) {
 		toOr.splits = make([]int, 0)
 	}
 
-	for i := range fromOr.splits {
+	for _, i := range fromOr.splits {
 		if i != toOr.idx {
 			toOr.splits = append(toOr.splits, i)
 		}
